@@ -54,7 +54,7 @@ def rule_put(ctx: Ctx, rule="C03.put"):
     n = 0
     for p in ctx.paths(fn, inline=_sm_inline, exc_edges="none"):
         evs = p.events
-        puts = [e for e in evs if e.kind == "call" and k.calls_method(e, "put") and any(t.cls is k.base or (t.cls and k.base in ctx.p.mro(t.cls)) for t in e.x["callee"].targets)]
+        puts = [e for e in evs if e.kind == "call" and not ctx.is_new_call(e) and k.calls_method(e, "put") and any(t.cls is k.base or (t.cls and k.base in ctx.p.mro(t.cls)) for t in e.x["callee"].targets)]
         loops = [e for e in evs if e.kind == "call" and k.calls_method(e, "processing_loop")]
         if not loops:
             if p.kind in ("return", "fall"):
